@@ -24,6 +24,7 @@ type question struct {
 	flags         questionFlags
 	finishMsgSend chan struct{}        // closed after attempting to send the Finish message
 	called        [][]capnp.PipelineOp // paths to called clients
+	paramRefs     map[exportID]uint32  // export references placed in the params
 }
 
 // questionFlags is a bitmask of which events have occurred in a question's
@@ -243,8 +244,8 @@ func (c *Conn) newPipelineCallMessage(msg rpccp.Message, tgt questionID, transfo
 	}
 	clients, states := extractCapTable(m)
 	c.mu.Lock()
-	// TODO(soon): save param refs
-	_, err = c.fillPayloadCapTable(payload, clients, states)
+	refs, err := c.fillPayloadCapTable(payload, clients, states)
+	c.saveParamRefs(qid, refs)
 	c.mu.Unlock()
 	releaseList(clients).release()
 	if err != nil {
@@ -271,6 +272,15 @@ func (q *question) PipelineRecv(ctx context.Context, transform []capnp.PipelineO
 	default:
 		go returnAnswer(r.Returner, ans, finish)
 		return ans
+	}
+}
+
+// saveParamRefs records the export references placed in the params of
+// question qid, to be dropped when its Return has releaseParamCaps set.
+// The caller must be holding onto c.mu.
+func (c *Conn) saveParamRefs(qid questionID, refs map[exportID]uint32) {
+	if int64(qid) < int64(len(c.questions)) && c.questions[qid] != nil {
+		c.questions[qid].paramRefs = refs
 	}
 }
 
